@@ -125,6 +125,9 @@ type serverConn struct {
 	closer     chan struct{}
 	closerOnce sync.Once
 
+	// peerMaxFrame is the client's SETTINGS_MAX_FRAME_SIZE, for the write loop.
+	peerMaxFrame uint32
+
 	// goAwayLck orders two things that happen on different goroutines: a stream
 	// being accepted (lastID moves) and a GOAWAY being written (lastID is read
 	// into it, and new streams are refused from then on). Without it a GOAWAY
@@ -1909,7 +1912,16 @@ func (sc *serverConn) writeLoop() {
 	buffered := 0
 
 	send := func(fr *FrameHeader) error {
-		_, err := fr.WriteTo(sc.bw)
+		var err error
+
+		if fr.Type() == FrameHeaders {
+			// A header block larger than the peer's SETTINGS_MAX_FRAME_SIZE
+			// goes out as HEADERS + CONTINUATION. This loop is the only writer,
+			// so the frames stay together.
+			err = writeHeaderFrames(sc.bw, fr, int(atomic.LoadUint32(&sc.peerMaxFrame)))
+		} else {
+			_, err = fr.WriteTo(sc.bw)
+		}
 		if err == nil && (len(sc.writer) == 0 || buffered > 10) {
 			err = sc.bw.Flush()
 			buffered = 0
@@ -1963,6 +1975,10 @@ func (sc *serverConn) handleSettings(st *Settings) {
 		}
 
 		sc.enc.SetMaxTableSize(st.tableSize)
+	}
+
+	if st.Has(MaxFrameSize) {
+		atomic.StoreUint32(&sc.peerMaxFrame, st.frameSize)
 	}
 
 	// The per-stream send windows are adjusted in handleStreams, where the
